@@ -381,10 +381,10 @@ def classify(case, impl, failure):
 TECHNIQUE = ("Coq proofs (structural induction over the port tree and the segments of each name) about a model of walk_ports / "
              "walk_ports_recurse0 / bundle_foreach with a pruning oracle + differential correspondence against the real "
              "walk_ports over macro-generated callbacks, with the real dispatch of every reported address")
-LEVEL_TEXT = ("For every tree, every pruning oracle and every initial buffer the walk leaves the buffer holding the string it "
-              "started with ('/' for an empty one) (C09_buffer_restored); for every '#'-free tree the reported (port, address) "
-              "list is exactly the Spec's enumeration, each leaf once, in table order (C09_enumerates_partial); pruning by NULL "
-              "object / 'enabled by' as coded (C09_pruning, C09_self_disabled). Enumeration with '#N' and the dispatch of every "
-              "reported address are computed for examples in Coq and otherwise decided by the tie and the Spec oracle on every run.")
+LEVEL_TEXT = ("For every well-formed tree ('#N' at any level, leaf names with several '#') the reported (port, address) list is exactly "
+              "the Spec's enumeration (C09_enumerates); the buffer is restored for every tree, oracle and initial content "
+              "(C09_buffer_restored); pruning by NULL object / 'enabled by' per expansion (C09_pruning, C09_pruning_enumerated, "
+              "C09_self_disabled); every reported address is dispatched to the reported port, with and without a location buffer, "
+              "for names of the macro shape and pairwise non-overlapping siblings (C09_dispatchable = C09_enumerates + C05 + C04).")
 LEVEL_NOTE = ("Trusted: Coq kernel, extraction, OCaml driver, harness, generator. The C++ code is modelled by hand "
               "(coq/Ports/WalkModel.v) and related to the model only by the correspondence run.")
